@@ -12,10 +12,10 @@ import (
 	"net/http"
 	"time"
 
+	"crypto/x509"
 	"github.com/WICG/webpackage/go/bundle"
 	bver "github.com/WICG/webpackage/go/bundle/version"
 	"github.com/WICG/webpackage/go/internal/cbor"
-	"crypto/x509"
 	"github.com/WICG/webpackage/go/signedexchange/certurl"
 	"github.com/WICG/webpackage/go/signedexchange/mice"
 	"github.com/WICG/webpackage/go/zz_verif/gen"
